@@ -3,6 +3,7 @@ package main
 // Loading /repo's working tree, function labels, the contract registry.
 
 import (
+	"go/constant"
 	"fmt"
 	"go/token"
 	"go/types"
@@ -34,6 +35,7 @@ type Ctx struct {
 	regexes   []*RegexDecl
 	encaps    []*EncapDecl
 	globalFacts []*GlobalFact
+	constMaps []*ConstMap
 	axioms    []*Lemma
 	axiomSyms map[string][]string
 	specFiles []*SpecFile
@@ -242,6 +244,7 @@ func (c *Ctx) loadSpecs(extra []string) error {
 		c.regexes = append(c.regexes, sf.Regexes...)
 		c.encaps = append(c.encaps, sf.Encaps...)
 		c.globalFacts = append(c.globalFacts, sf.GFacts...)
+		c.constMaps = append(c.constMaps, sf.CMaps...)
 		c.axioms = append(c.axioms, sf.Axioms...)
 	}
 	for _, ax := range c.axioms {
@@ -673,4 +676,99 @@ func (c *Ctx) checkEncapsulated() []string {
 		}
 	}
 	return errs
+}
+
+// constKeyString: a constmap key expression must be a string literal or a string constant of the package.
+func (c *Ctx) constKeyString(e Expr) (string, bool) {
+	switch x := e.(type) {
+	case *EStr:
+		return x.V, true
+	case *EIdent:
+		if k, ok := c.tpkg.Scope().Lookup(x.Name).(*types.Const); ok && k.Val().Kind() == constant.String {
+			return constant.StringVal(k.Val()), true
+		}
+	}
+	return "", false
+}
+
+// checkConstMap decides a constmap declaration syntactically over the whole package: returns the
+// list of problems (empty = holds).
+func (c *Ctx) checkConstMap(cm *ConstMap) []string {
+	gv, ok := c.pkg.Members[cm.Var].(*ssa.Global)
+	if !ok {
+		return []string{"no package-level variable " + cm.Var}
+	}
+	var problems []string
+	initKeys := map[string]bool{}
+	stores := 0
+	var visit func(f *ssa.Function, isInit bool)
+	// values that are (loads of) the global, or the map being built for it in init
+	visit = func(f *ssa.Function, isInit bool) {
+		fromGlobal := map[ssa.Value]bool{}
+		for _, b := range f.Blocks {
+			for _, in := range b.Instrs {
+				switch in := in.(type) {
+				case *ssa.UnOp:
+					if in.Op == token.MUL && in.X == ssa.Value(gv) {
+						fromGlobal[in] = true
+					}
+				case *ssa.Store:
+					if in.Addr == ssa.Value(gv) {
+						stores++
+						if !isInit {
+							problems = append(problems, fmtf("%s is assigned in %s", cm.Var, f.String()))
+						} else {
+							fromGlobal[in.Val] = true
+						}
+					}
+				}
+			}
+		}
+		for _, b := range f.Blocks {
+			for _, in := range b.Instrs {
+				switch in := in.(type) {
+				case *ssa.MapUpdate:
+					if fromGlobal[in.Map] {
+						if !isInit {
+							problems = append(problems, fmtf("%s is updated in %s at %s", cm.Var, f.String(), c.fset.Position(in.Pos())))
+						} else if k, ok := in.Key.(*ssa.Const); ok && k.Value != nil && k.Value.Kind() == constant.String {
+							initKeys[constant.StringVal(k.Value)] = true
+						}
+					}
+				case *ssa.Call:
+					if b, ok := in.Call.Value.(*ssa.Builtin); ok && (b.Name() == "delete" || b.Name() == "clear") && len(in.Call.Args) > 0 && fromGlobal[in.Call.Args[0]] {
+						problems = append(problems, fmtf("%s: %s in %s", cm.Var, b.Name(), f.String()))
+					}
+				}
+			}
+		}
+		for _, a := range f.AnonFuncs {
+			visit(a, isInit)
+		}
+	}
+	for name, m := range c.pkg.Members {
+		if fn, ok := m.(*ssa.Function); ok {
+			visit(fn, name == "init")
+			_ = name
+		}
+	}
+	for _, mset := range c.fnByLabel {
+		if mset.Parent() == nil && mset.Signature.Recv() != nil {
+			visit(mset, false)
+		}
+	}
+	if stores != 1 {
+		problems = append(problems, fmtf("%s is assigned %d times (expected once, by the package initialiser)", cm.Var, stores))
+	}
+	for _, ke := range cm.Keys {
+		k, ok := c.constKeyString(ke)
+		if !ok {
+			problems = append(problems, "constmap key "+ke.String()+" is not a string constant")
+			continue
+		}
+		if !initKeys[k] {
+			problems = append(problems, fmtf("the initialiser of %s does not put the key %q", cm.Var, k))
+		}
+	}
+	return problems
 }
